@@ -228,10 +228,23 @@ impl Engine for TwinSim {
             let n = main.ops.len();
             Case::Chain { main, noise, sched: gen_sched(rng, n), subprocess, skew_ms }
         } else {
-            let scfg = Cfg { property: "C14".to_string(), tier: cfg.tier, seed: cfg.seed };
-            let main = stakesim::StakeSim.generate(rng, &scfg);
+            let scfg = Cfg { property: (*rng.pick(&["C14", "C15", "C15", "C16"])).to_string(), tier: cfg.tier, seed: cfg.seed };
+            let mut main = stakesim::StakeSim.generate(rng, &scfg);
             let mut noise = stakesim::StakeSim.generate(rng, &scfg);
+            // the decoy of the staking engine is this engine's noise instance
+            main.decoy = false;
+            noise.decoy = false;
             noise.prefix = main.prefix.wrapping_add(1 + rng.below(3) as u8);
+            // the noise instance is configured differently: other staking parameters (usually another bonded
+            // denomination, always another annual rate)
+            if rng.chance(2, 3) {
+                noise.bonded = (main.bonded + 1 + rng.below(2) as u8) % 3;
+            } else {
+                noise.bonded = main.bonded;
+            }
+            if noise.apr == main.apr {
+                noise.apr = (main.apr + 2_500) % 10_001;
+            }
             let n = main.ops.len();
             Case::Stake { main, noise, sched: gen_sched(rng, n), subprocess, skew_ms }
         }
@@ -268,6 +281,32 @@ impl Engine for TwinSim {
             viol.push(Violation::new(P, "C19.twin_divergence", format!("two instances given the same {} operation list diverge at {} (of {} steps)", kind, what, ta.len() - 1)));
         } else if a.root() != b.root() {
             viol.push(Violation::new(P, "C19.twin_divergence", "final root stores of the twins differ byte-wise".to_string()));
+        }
+        if viol.is_empty() {
+            // (6) "shadowed": the same list once more, with a differently configured instance created right
+            // after this one (before its first operation) and kept alive, never stepped
+            let shadow: Option<Box<dyn Inst>> = match case {
+                Case::Chain { main, noise, .. } => {
+                    let mut x = make_chain(main);
+                    let _n = make_chain(noise);
+                    while x.step_one() {}
+                    Some(x)
+                }
+                Case::Stake { main, noise, .. } => {
+                    let mut x = make_stake(main);
+                    let _n = make_stake(noise);
+                    while x.step_one() {}
+                    Some(x)
+                }
+            };
+            crate::world::set_current_world(None);
+            stats.fault("shadow_instance_created_after");
+            if let Some(x) = shadow {
+                let tx = transcript_of(x.as_ref());
+                if let Some(i) = first_diff(&ta, &tx) {
+                    viol.push(Violation::new(P, "C19.instance_interference", format!("the same {} operation list gives a different transcript (from step {}) when another, differently configured instance is created right after this one", kind, i)));
+                }
+            }
         }
         if subprocess && viol.is_empty() {
             stats.fault("fresh_process_comparison");
